@@ -52,7 +52,7 @@ STYLES = ["none", "named", "positional", "alias", "expr_bound"]
 
 
 def nows(s):
-    return re.sub(r"\s+", "", s)
+    return "".join(s.split())
 
 
 def where_preds(out):
@@ -263,8 +263,8 @@ def run(chk, tier):
                     if n == 2 and not thorough and (fs[0] in NEW_FORMS or fs[1] in NEW_FORMS) and not (fs[0] in CORE_FORMS or fs[1] in CORE_FORMS):
                         continue   # quick: a later-added form is paired with the four core forms only
                     for ss in style_sets:
-                        if all(s == "none" for s in ss) and n > 1:
-                            pass
+                        if not thorough and n == 2 and any(f in NEW_FORMS for f in fs) and any(st in ("alias", "expr_bound", "shadow_expr") for st in ss):
+                            continue   # quick: the later-added forms with the three basic reference styles only
                         for rot in ((0, 1, 2) if n == 1 else (0,)):
                             fields = [Field(i, fs[i], ss[i], traits_cycle[(i + rot) % 4], named) for i in range(n)]
                             for level in ("struct", "variant", "shared_default", "shared_wrapping"):
